@@ -9,6 +9,7 @@ TEXT_POOL = ["Mark: A", "Mark: B", "Wait: 0.5 s", "Wait: 1 s", "CmdA: d=0", "Cmd
              "Simulate: Run Time = 0 s", "Simulate: Process Time = 5", "Simulate: Block Time = 1 s", "Simulate off: X", "Simulate off: Nope",
              "Simulate: FT01 = 3 L/h", "Simulate: Run Counter = 2", "Simulate: Clock = 1", "Simulate: Mark = x", "Simulate: System State = Foo",
              "End block", "End blocks", "Call macro: M", "Batch: b", "", "# c", "Error: e", "Unpause", "Unhold"]
+TEXT_FAIL = ["Frob: 1", "Foo bar", "Simulate: Nope = 1", "Simulate off: Nope", "Wait: abc", "Base: zz", "Call macro: Q", "Pause: x"]
 TEXT_COND = ["X > 1", "X > 0", "TT > 5 degC", "TT > 5 L", "TT > 5", "Nope > 1", "Run Time > 1 s", "Run Time > 1 kg", "X > abc", "X >", "> 1",
              "Block Time > 0.5 s", "FT01 < 100 L/h", "FT01 < 100 mL/min", "Run Counter >= 0", "Mark = A", "System State = Running"]
 
@@ -23,10 +24,17 @@ def gen_text_case(rng):
             lines.append(f"{rng.choice(['Watch', 'Alarm'])}: {rng.choice(TEXT_COND)}")
             for _ in range(rng.randint(1, 2)):
                 lines.append("    " + rng.choice(TEXT_POOL))
-        elif r < 0.92:
+        elif r < 0.88:
             lines.append(f"Block: B{len(lines)}")
             for _ in range(rng.randint(1, 3)):
                 lines.append("    " + rng.choice(TEXT_POOL + ["End block"]))
+        elif r < 0.93:
+            # directed: a scope whose condition holds at once and whose LAST body line fails in the interpreter (an Alarm
+            # re-arms -- resets its body -- in the very tick that line fails)
+            lines.append(f"{rng.choice(['Alarm', 'Alarm', 'Watch'])}: {rng.choice(['X > 0', 'Run Counter >= 0', 'Run Time >= 0 s'])}")
+            for _ in range(rng.randint(0, 2)):
+                lines.append("    " + rng.choice(["Mark: A", "Mark: B", "Noop: 2", "Info: i"]))
+            lines.append("    " + rng.choice(TEXT_FAIL))
         else:
             lines.append("Macro: M")
             lines.append("    " + rng.choice(TEXT_POOL))
